@@ -229,6 +229,16 @@ def cases(draw, qmax=30, qset=None):
                 over = draw(st.sampled_from([0, 0, 0, -1, 1, 2, 3]))
                 deg = max(0, min(q + over, 34)) if scheme != "vertex" else draw(st.integers(0, 3))
                 alpha = draw(exponents(tdim, deg))
+                if kind == "multi" and terms and terms[-1]["q"] is not None and draw(st.integers(0, 3)) == 0:
+                    # the same integrand again under other metadata that may resolve to the very same rule (q and q+1 of a Gauss
+                    # scheme, default vs Gauss-Jacobi): both integrals count
+                    prev = terms[-1]
+                    q2 = max(0, min(prev["q"] + draw(st.sampled_from([0, 1, -1, 1])), qcap)) if prev["scheme"] != "vertex" else 1
+                    sch2 = draw(st.sampled_from([prev["scheme"], prev["scheme"], "default", "Gauss-Jacobi"])) if prev["scheme"] != "vertex" else "vertex"
+                    if sch2 not in SCHEMES[cell]:
+                        sch2 = prev["scheme"]
+                    terms.append({"alpha": prev["alpha"], "q": q2, "scheme": sch2})
+                    continue
                 if kind == "multi" and draw(st.integers(0, 3)) == 0:
                     # no metadata at all: the rule comes from the estimated degree and must integrate the monomial exactly
                     terms.append({"alpha": draw(exponents(tdim, draw(st.integers(1, 8)))), "q": None, "scheme": "default"})
